@@ -21,9 +21,14 @@ RULE = ('cases = trajectories with 1-3 diffusing Li atoms and 1-4 framework atom
         'x cut-off x resolution; cases in which some distance lies within 1e-9 of a bin edge are excluded and counted; per-state counts and the '
         'species-pair raw counts are compared exactly with the model on exact minimum-image distances, the shell normalisation by interval certificates; '
         'non-trivial = >= 2 states and >= 3 non-empty bins')
-TRUSTED = ['Lattice.get_all_distances is replaced by the exact minimum-image search; bin-edge decisions are guard-banded',
+TRUSTED = ['translator unit statecode (harness/translate.py)', 'Lattice.get_all_distances is replaced by the exact minimum-image search; bin-edge decisions are guard-banded',
            'Interval tactic for the normalisation certificates (pi)']
 ASSUMPTIONS = ['self pairs at distance 0 are counted as the code counts them (bin 0)']
+
+
+def pre_build():
+    import translate
+    return [translate.gen_state_code()]
 
 
 def gen_cases(rng, tier):
